@@ -720,6 +720,15 @@ def cte_lookup_obligations(rep):
             st = o.value
             if not isinstance(st, SymObj):
                 return f'returns {st!r}'
+            # frame: the select handed over belongs to the caller (the time-series planner derives several selects from it and goes on editing it): nothing
+            # of it is written, and the step carries a copy
+            sel_ = o.state['sel']
+            wr = [(w_[1]) for w_ in o.writes if w_[0] is sel_]
+            if wr:
+                return f'the caller\'s select is written (attribute {wr[0]!r}): later edits of the caller change the step, and the caller loses its FROM clause'
+            q_ = st.fields.get('query')
+            if q_ is sel_:
+                return 'the step carries the caller\'s select itself, not a copy'
             if want == 'cte':
                 if st.cls is not SubSelectStep or st.fields.get('dataframe') is not o.state['R']:
                     return f'a bare reference to the CTE is not answered from the result of the CTE ({st!r})'
@@ -828,7 +837,30 @@ def replay_cte_lookup():
     except Exception as e:
         return {'input': sql, 'dialect': 'mindsdb', 'fires': False, 'observed': f'{type(e).__name__}: {e}'[:120]}
     ints = [s_.integration for s_ in p.steps if isinstance(s_, FetchDataframeStep)]
-    return {'input': sql, 'dialect': 'mindsdb', 'fires': 'int2' not in ints, 'observed': f'fetches from {ints}: {[type(s_).__name__ for s_ in p.steps]}', 'expected': 'one fetch from int2 for int2.b'}
+    if 'int2' not in ints:
+        return {'input': sql, 'dialect': 'mindsdb', 'fires': True, 'observed': f'fetches from {ints}: {[type(s_).__name__ for s_ in p.steps]}', 'expected': 'one fetch from int2 for int2.b'}
+    # frame witness: a caller that derives several selects from one (the time-series planner) with the data coming from a CTE: each derived select keeps its own filter
+    try:
+        from mindsdb_sql import parse_sql
+        from mindsdb_sql.planner import plan_query
+        preds = [{'name': 'pr', 'integration_name': 'mindsdb', 'timeseries': True, 'window': 3, 'horizon': 2, 'order_by_column': 't', 'group_by_columns': ['g']}]
+        sql2 = 'WITH tbl AS (SELECT * FROM int1.data) SELECT * FROM tbl ta JOIN mindsdb.pr tb WHERE ta.t > 5 AND ta.g = 1 AND ta.g IN (1, 2)'
+        p2 = plan_query(parse_sql(sql2), integrations=['int1'], predictor_metadata=preds, default_namespace='mindsdb')
+        texts = []
+
+        def walk(steps):
+            for s_ in steps:
+                if getattr(s_, 'query', None) is not None:
+                    texts.append(str(s_.query))
+                sub = getattr(s_, 'steps', None) if type(s_).__name__ == 'MultipleSteps' else (getattr(s_, 'step', None) if type(s_).__name__ == 'MapReduceStep' else None)
+                if sub is not None:
+                    walk(sub if isinstance(sub, list) else [sub])
+        walk(p2.steps)
+        if not any('t > 5' in t_.replace('`', '') for t_ in texts):
+            return {'input': sql2, 'dialect': 'mindsdb', 'fires': True, 'observed': f'no step of the plan selects the rows with t > 5: {texts[:5]}', 'expected': 'a select of the CTE result with t > 5 (the rows the statement asks for)'}
+    except Exception:
+        pass
+    return {'input': sql, 'dialect': 'mindsdb', 'fires': False, 'observed': f'fetches from {ints}: {[type(s_).__name__ for s_ in p.steps]}', 'expected': 'one fetch from int2 for int2.b'}
 
 
 # ------------------------------------------------------------------ set operations across integrations
